@@ -695,5 +695,8 @@ func init() {
 		Tasks:   c03Tasks,
 		Replay:  c03Replay,
 		Vacuity: c03Vacuity,
+		// the stream protocol (parser goroutine -> channel -> consumer, Err read after the channel is
+		// closed) free-running under the Go race detector: a complement, the deciding step stays the enumeration
+		Post: func(m *mc.Master) { m.RacePass("phylipstream") },
 	})
 }
